@@ -8,6 +8,11 @@ K1  The real `full_execution.execute` (vsym.exeharness) with: where execution en
     Every stub step additionally uses exactly_lib's internal tmp-file API.
     Observed from inside the stub steps and after return; compared with the documented layout
     and lifecycle.
+K2  --keep: the path of the sandbox is reported however execution ends (C02's chain).
+K3  result/ and the layout with the REAL actors (command line: shell / program / program symbol,
+    with and without -transformed-by, with stdin; source interpreter; file interpreter; null)
+    through the REAL MainProgram --keep; the child process is a stand-in at `subprocess` level that
+    writes through the descriptors it is given.                                        [selector]
 """
 import os
 from typing import List
@@ -90,7 +95,7 @@ def _pre_k1(kind: int, keep: bool, xsel: int, mis: int) -> bool:
         first = C01.valid_kinds(cells[idx][0])[0] if idx >= 0 else 2
         if kind != first:
             return False
-    if xsel != 0 and (mis != 0 or fam in C01.PRE_SANDBOX_FAMILIES + ('setup-main', 'post', 'prepare', 'execute')):
+    if xsel != 0 and (mis != 0 or fam in C01.PRE_SANDBOX_FAMILIES + ('setup-main', 'post', 'exe-input', 'prepare', 'execute')):
         return False  # exit codes other than the first: only where the action completes, without misbehaviour
     return True
 
@@ -294,9 +299,176 @@ def k2_keep_reports_path(kind: int) -> bool:
     return ob.post(f['kept'][0] and stdout == f['roots'][0] + '\n')
 
 
+# ----------------------------------------------------------------------------- K3: result/ with the REAL actors
+
+# (name, [conf] lines, [setup] lines, [act] lines, does a child process run?, is stdout transformed (to upper case)?)
+ACTORS = (
+    ('command-line:shell', [], [], ['$ the shell command'], True, False),
+    ('command-line:program', [], [], ['% the-program arg1 arg2'], True, False),
+    ('command-line:program-transformed', [], [], ['% the-program arg1', '  -transformed-by char-case -to-upper'], True, True),
+    ('command-line:program-transformed-sequence', [], [],
+     ['% the-program arg1', '  -transformed-by ( identity | char-case -to-upper )'], True, True),
+    ('command-line:program-symbol', [], ['def program P = % the-program arg1'], ['@ P arg2'], True, False),
+    ('command-line:program-symbol-transformed', [], ['def program P = % the-program arg1', '    -transformed-by char-case -to-upper'],
+     ['@ P arg2'], True, True),
+    ('command-line:program-symbol-transformed-twice', [],
+     ['def program P = % the-program arg1', '    -transformed-by char-case -to-upper'],
+     ['@ P arg2', '  -transformed-by replace CHILD child'], True, 'twice'),
+    ('command-line:program-w-stdin-transformed', [], ["stdin = 'the stdin'"],
+     ['% the-program', '  -transformed-by char-case -to-upper'], True, True),
+    ('command-line:system-program-python', [], [], ['-python -c pass'], True, False),
+    ('source-interpreter', ['actor = source % the-interpreter'], [], ['source line 1', 'source line 2'], True, False),
+    ('file-interpreter', ['actor = file % the-interpreter'], [], ['script.src arg'], True, False),
+    ('null', ['actor = null'], [], ['ignored'], False, False),
+)
+CHILD_OUT = 'child Out line 1\nline 2 without new-line'
+CHILD_ERR = 'child Err\n'
+
+
+class _WritingSubprocessStub:
+    """Stands in for the `subprocess` module at exactly_lib's single process-starting site: the "child" writes fixed
+    texts to the stdout / stderr it is given THROUGH THE FILE DESCRIPTORS (as a real child does) and returns
+    the chosen exit code."""
+    import subprocess as _sp
+    TimeoutExpired = _sp.TimeoutExpired
+    DEVNULL = _sp.DEVNULL
+    PIPE = _sp.PIPE
+    STDOUT = _sp.STDOUT
+    code = 0
+    calls = []
+
+    @staticmethod
+    def _write(f, text: str):
+        if f is None:
+            return
+        fd = f if isinstance(f, int) else f.fileno()
+        if fd >= 0:
+            os.write(fd, text.encode())
+
+    @classmethod
+    def call(cls, *a, **k):
+        cls.calls.append((a, k))
+        cls._write(k.get('stdout'), CHILD_OUT)
+        cls._write(k.get('stderr'), CHILD_ERR)
+        return cls.code
+
+
+def _tree(root: str) -> dict:
+    ret = {}
+    for dp, dns, fns in os.walk(root):
+        rel = os.path.relpath(dp, root)
+        for dn in dns:
+            ret[os.path.normpath(os.path.join(rel, dn))] = None
+        for fn in fns:
+            with open(os.path.join(dp, fn), 'rb') as f:
+                ret[os.path.normpath(os.path.join(rel, fn))] = f.read().decode()
+    return ret
+
+
+def _pre_k3(actor: int, xsel: int) -> bool:
+    return 0 <= actor < len(ACTORS) and 0 <= xsel < len(EXIT_CODES)
+
+
+def k3_result_dir(actor: int, xsel: int) -> bool:
+    """
+    pre: _pre_k3(actor, xsel)
+    post: _
+    """
+    import io
+    from vsym import scratch
+    from harness.C02 import Sink
+    from exactly_lib.cli import main_program
+    from exactly_lib.cli_default import default_main_program_setup as d
+    from exactly_lib.util.file_utils.std import StdOutputFiles
+    from exactly_lib.util.process_execution import process_executor
+    name, conf, setup, act, runs_child, transformed = ob.pick(ACTORS, actor)
+    code = ob.pick(EXIT_CODES, xsel)
+    process_executor.subprocess = _WritingSubprocessStub
+    _WritingSubprocessStub.code = code
+    _WritingSubprocessStub.calls = []
+    work = scratch.new_dir('c04k3')
+    case_dir = os.path.join(work, 'case')
+    os.mkdir(case_dir)
+    with open(os.path.join(case_dir, 'script.src'), 'w') as f:
+        f.write('script\n')
+    text = '\n'.join(['[conf]'] + conf + ['[setup]'] + setup + ['[act]'] + act +
+                     ['[before-assert]', "file -rel-act ba-marker.txt = 'x'", '']) + '\n'
+    path = os.path.join(case_dir, 't.case')
+    with open(path, 'w') as f:
+        f.write(text)
+    roots = []
+
+    def resolver() -> str:
+        p = os.path.join(work, 'sandbox-%d' % (len(roots) + 1))
+        os.mkdir(p)
+        roots.append(p)
+        return p
+
+    mp = main_program.MainProgram(
+        d.test_case_handling_setup.setup(), resolver,
+        d.TestCaseDefinitionForMainProgram(
+            d.TestCaseParsingSetup(d.instruction_name_and_argument_splitter.splitter,
+                                   d.default_instructions_setup.INSTRUCTIONS_SETUP, d.ActPhaseParser()),
+            d.builtin_symbols.ALL),
+        d.test_suite.test_suite_definition(), io.DEFAULT_BUFFER_SIZE)
+    out, err = Sink(), Sink()
+    cwd = os.getcwd()
+    environ = sorted(os.environ.items())
+    try:
+        rc = mp.execute(['--keep', path], StdOutputFiles(out, err))
+    except Exception:  # noqa
+        rc = None
+    cwd_after = os.getcwd()
+    os.chdir(cwd)
+    ok = rc == 0 and len(roots) == 1 and out.value() == roots[0] + '\n' and cwd_after == cwd and \
+        sorted(os.environ.items()) == environ
+    if ok:
+        tree = _tree(roots[0])
+        result = {k: v for k, v in tree.items() if k.startswith('result' + os.sep)}
+        exp_out = (CHILD_OUT.upper() if transformed else CHILD_OUT) if runs_child else ''
+        if transformed == 'twice':
+            exp_out = exp_out.replace('CHILD', 'child')
+        if ob.case().get('oracle_bug'):
+            exp_out = CHILD_OUT
+        expected = {os.path.join('result', 'stdout'): exp_out,
+                    os.path.join('result', 'stderr'): CHILD_ERR if runs_child else '',
+                    os.path.join('result', 'exit-code'): str(code if runs_child else 0)}
+        ok = result == expected
+        # layout: the four documented directories; tmp/ untouched by Exactly; act/ holds what the test put there
+        ok = ok and all(k in tree and tree[k] is None for k in ('act', 'tmp', 'result', 'internal'))
+        ok = ok and [k for k in tree if k.startswith('tmp' + os.sep)] == []
+        ok = ok and {k for k in tree if k.startswith('act' + os.sep)} == {os.path.join('act', 'ba-marker.txt')}
+        ok = ok and {k.split(os.sep)[0] for k in tree} == {'act', 'tmp', 'result', 'internal'}
+        ok = ok and len(_WritingSubprocessStub.calls) == (1 if runs_child else 0)
+    from vsym import exeharness as xh
+    xh._make_writable(work)
+    scratch.remove(work)
+    return ob.post(ok)
+
+
 def obligations(tier: str) -> List[Ob]:
     n, cells, cat = _fault_catalogue()
     obs = []
+    obs.append(Ob(name='K3:result-dir:real-actors', fn='k3_result_dir', case={}, kernel='K3', selector=True,
+                  bound='%d act-phase variants with the REAL actors (%s) x exit codes %s of the child; '
+                        'the child writes %d / %d characters to stdout / stderr' % (
+                            len(ACTORS), ', '.join(a[0] for a in ACTORS), list(EXIT_CODES), len(CHILD_OUT), len(CHILD_ERR)),
+                  timeout=1500,
+                  real=REAL + ('exactly_lib.cli.main_program.MainProgram.execute',
+                               'exactly_lib.impls.actors.program.execution',
+                               'exactly_lib.impls.actors.program.actor',
+                               'exactly_lib.impls.actors.source_interpreter.actor',
+                               'exactly_lib.impls.actors.file_interpreter',
+                               'exactly_lib.impls.actors.null',
+                               'exactly_lib.impls.actors.util.actor_from_parts.parts',
+                               'exactly_lib.util.process_execution.process_executor.ProcessExecutor.execute'),
+                  stubs=('subprocess module at process_executor: a stand-in child that writes fixed texts through the file '
+                         'descriptors it is given and returns the chosen exit code',
+                         'deterministic sandbox resolver (MainProgram constructor argument)', 'in-memory stdout/stderr'),
+                  entry='MainProgram.execute(["--keep", FILE])',
+                  outside=('what a real child does with its descriptors beyond writing to them',)))
+    obs.append(Ob(name='K3:seeded-oracle-error', fn='k3_result_dir', case=dict(oracle_bug=True), kernel='K3', selector=True,
+                  bound='seeded: oracle ignores the transformation of stdout', timeout=900, expect=ob.REFUTE))
     for i, (fam, idx) in enumerate(cat):
         if idx <= -100:
             continue
